@@ -1842,7 +1842,14 @@ target (`reopen`: same types), and every joined node's content is accepted becau
 state after the joined content (`Coh`, Proofs/FitCoherent.lean) and `find_close_level` / `content_after_fits` answered
 a filling for the rest of the document's node behind `to`.  `Coh` is proved invariant only under `unplacedWfRun`; the
 bridge "`Coh` at the end of `close` ⇒ `checkContent` of every joined level" is not proved.  The tie (op `fitEmit`) applies
-every emitted step of the model and of the code and compares the documents. -/
+every emitted step of the model and of the code and compares the documents.
+
+SINCE PROVED by a different route (the result document built explicitly from the frames of `from` and of the position
+`close` continues from; sections "The emitted step applies" at the end of this file): `delete_applies` /
+`delete_never_raises` / `deleteRange_never_raises` for every deletion under decidable schema guards, and for content
+`replace_applies_direct` / `insertInline_never_raises_direct_partial` (the node `from` is in accepts the slice as it
+stands).  Still open for inline leaves: the runs in which the Fitter closes frontier nodes or opens wrappers before it
+places the content. -/
 
 /-- **what C11 says about the document an operation returns** for the request "replace `[f, t)` of a document with
     tokens `d` by a slice with text `req`": the content tokens (text units and leaf nodes, with marks and attributes)
